@@ -465,7 +465,7 @@ type shape struct {
 	NameLen int `json:"namelen,omitempty"`
 }
 
-const maxRepeat = 120000
+const maxRepeat = 140000
 
 func (sh shape) valid() bool {
 	return sh.Repeat >= 0 && sh.Repeat <= maxRepeat && sh.Many >= 0 && sh.Many <= 1000 && sh.NameLen >= 0 && sh.NameLen <= 64 &&
